@@ -210,8 +210,10 @@ class TwistedEventLoop(EventLoop):
         self._twisted_idle_enabled = True
 
     def _twisted_idle_callback(self) -> None:
-        for callback in self._idle_callbacks.values():
-            callback()
+        for handle, callback in list(self._idle_callbacks.items()):
+            # an idle callback may add or remove idle callbacks (itself included)
+            if handle in self._idle_callbacks:
+                callback()
         self._twisted_idle_enabled = False
 
     def remove_enter_idle(self, handle: int) -> bool:
